@@ -418,7 +418,8 @@ def write_checks(out, orb, what, inp, name=None):
         bad.append(("ids", (tle.norad_id, tle.element_nb, tle.revolutions), (orb.norad_id, orb.element_nb, orb.revolutions)))
     if tle.cospar_id != orb.cospar_id:
         bad.append(("cospar_id", tle.cospar_id, orb.cospar_id))
-    dt = abs((tle.epoch - orb.date).total_seconds())
+    # the TLE day fraction counts 86400 s per UTC day: compare the UTC clock readings (a difference of Dates would count an inserted leap second)
+    dt = abs((tle.epoch.datetime - orb.date.change_scale("UTC").datetime).total_seconds())
     if dt > 864e-6 / 2 + 3e-6:
         bad.append(("epoch", str(orb.date), str(tle.epoch)))
     if bad:
@@ -1110,6 +1111,8 @@ def o_unfloat(out, rng):
 
 
 def oracle(ctx, widened):
+    from harness import env
+    env.use_real_eop()
     out = Outcome()
     rng = ctx.rng
     big = widened or ctx.thorough
@@ -1148,7 +1151,15 @@ def replay(f):
     i = f["input"]
     fam = f["family"]
     rng = random.Random(0)
-    if "record" in i:
+    if "ops" in i:
+        ops = [tuple(tuple(x) if isinstance(x, list) else x for x in op) for op in i["ops"]]
+        r = dict(i["record"])
+        for k in ("ndot", "ndd", "bstar"):
+            r[k] = tuple(r[k])
+        run_history(out, i["start"], r, ops)
+        for x in out.failures:
+            x["family"] = fam
+    elif "record" in i:
         r = dict(i["record"])
         for k in ("ndot", "ndd", "bstar"):
             r[k] = tuple(r[k])
@@ -1171,14 +1182,6 @@ def replay(f):
         k, t = try_parse(i["text"])
         if k == "ok" or k.startswith("other"):
             out.fail(fam, f["what"], i, observed=k)
-    elif "ops" in i:
-        ops = [tuple(tuple(x) if isinstance(x, list) else x for x in op) for op in i["ops"]]
-        r = dict(i["record"])
-        for k in ("ndot", "ndd", "bstar"):
-            r[k] = tuple(r[k])
-        run_history(out, i["start"], r, ops)
-        for x in out.failures:
-            x["family"] = fam
     elif "lines" in i and "tokens" in i:
         judge_from_string_lines(out, i["lines"], i["tokens"], fam.rsplit("-", 1)[-1] if False else "replay")
         for x in out.failures:
@@ -1918,6 +1921,155 @@ def k_floats(out, rng, n):
             out.fail("_unfloat", "_unfloat differs from the model", {"text": t, "value": v}, observed=real, expected=unhx(m[3:]) if m.startswith("ok ") else m)
 
 
+# ---------------------------------------------------------------- off-grid orbits: the float side (Model/TleQuant.lean)
+
+# the numbers Tle.from_orbit hands to str.format / _unfloat: sub-expressions of the keyword expressions that read_writer() compares with the
+# source on every run (want1 / want2)
+NUM_EXPR = {"ndot": "orbit.ndot / 2", "ndotdot": "orbit.ndotdot / 6", "bstar": "orbit.bstar", "i": "np.degrees(i) % 360", "Ω": "np.degrees(Ω) % 360",
+            "e": "e", "ω": "np.degrees(ω) % 360", "M": "np.degrees(M) % 360", "n": "n * 86400 / (2 * np.pi)"}
+SCALES = ["UTC", "UTC", "TAI", "TT", "GPS", "TDB"]
+_EPOCH0 = None
+
+
+def us_since_year1(dt):
+    from datetime import datetime
+    d = dt - datetime(1, 1, 1)
+    return (d.days * 86400 + d.seconds) * 10**6 + d.microseconds
+
+
+def formatted_numbers(orb):
+    """evaluate, on a copy converted as the code converts it, the numeric sub-expressions of the writer -> {name: float}"""
+    import numpy as np
+    orbit = orb.copy(form="TLE", frame="TEME")
+    i, Ω, e, ω, M, n = orbit
+    ns = {"np": np, "orbit": orbit, "i": i, "Ω": Ω, "e": e, "ω": ω, "M": M, "n": n}
+    return {k: float(eval(v, ns)) for k, v in NUM_EXPR.items()}
+
+
+def q_tokens(x, signed=False):
+    import math
+    f = Fraction(abs(x)) if signed else Fraction(x)
+    t = [str(f.numerator), str(f.denominator)]
+    return (["1" if math.copysign(1.0, x) < 0 else "0"] + t) if signed else t
+
+
+def wq_line(orb):
+    """-> (request line, is_tie)"""
+    v = formatted_numbers(orb)
+    own = us_since_year1(orb.date.datetime)
+    utc = us_since_year1(orb.date.change_scale("UTC").datetime)
+    name = orb._data.get("name") or ""
+    cid = orb._data.get("cospar_id", "")
+    y, _, piece = cid.partition("-")
+    toks = ["tle.wq", hx(name), hx(str(orb._data.get("norad_id", "99999"))), hx(y[2:] + piece), str(own), str(own - utc)]
+    toks += q_tokens(v["ndot"], True) + q_tokens(v["ndotdot"], True) + q_tokens(v["bstar"], True) + [str(orb.element_nb)]
+    for k in ("i", "Ω", "e", "ω", "M", "n"):
+        toks += q_tokens(v[k])
+    toks.append(str(orb.revolutions))
+    return " ".join(toks), (utc % 864) == 432
+
+
+def with_scale(orb, scale):
+    """the same instant, the date labelled with another scale"""
+    if scale != "UTC":
+        orb.date = orb.date.change_scale(scale)
+    return orb
+
+
+def gen_offgrid(rng):
+    orb, inp = gen_float_orbit(rng)
+    k = rng.random()
+    if k < 0.08:
+        # the writer's domain is wider than the format's: push one number out of its columns
+        w = rng.choice(["e", "n", "ndot", "drag", "neg-angle", "neg-e"])
+        if w == "e":
+            orb[2] = rng.choice([1.0, 1.5, 0.99999996, 12.3456789])
+        elif w == "n":
+            orb[5] = rng.choice([100.0, 99.999999996, 123.456]) * 2 * 3.141592653589793 / 86400.0
+        elif w == "ndot":
+            orb.ndot = rng.choice([2.0, -2.0, 1.99999999, 20.25, -0.0, 2 * 0.999999996])
+        elif w == "drag":
+            orb.bstar = rng.choice([1e9, -1e10, 0.999996e9, 5e-324, 1e-300, -2.5e-15, 1e-11 * 0.999996, 0.99999e-10, 0.999995e-10, 3.5e-14, 0.5e-14, 1.5e-14, 2.5e-14])
+        elif w == "neg-angle":
+            orb[rng.choice([0, 1, 3, 4])] = rng.choice([-1e-20, -1e-9, -0.1, 7.0, 2 * 3.141592653589793])
+        else:
+            orb[2] = -1e-12
+    scale = rng.choice(SCALES)
+    inp = dict(inp, scale=scale)
+    return with_scale(orb, scale), inp
+
+
+def k_offgrid(out, rng, n):
+    """the float side: off-grid doubles rounded by str.format vs the exact model on their exact rational values"""
+    from beyond.io.tle import Tle, _unfloat
+    cases = [gen_offgrid(rng) for _ in range(n)]
+    reqs, ties = [], []
+    for orb, _ in cases:
+        l, tie = wq_line(orb)
+        reqs.append(l)
+        ties.append(tie)
+    replies = core.Driver().run(reqs)
+    second = []
+    for (orb, inp), m, tie, req in zip(cases, replies, ties, reqs):
+        try:
+            real = "ok " + str(Tle.from_orbit(orb))
+        except Exception as e:  # noqa
+            real = real_error_token(e)
+        mt = "ok " + "\n".join(unhx(x) for x in m.split(" ")[-1].split(",")) if m.startswith("ok ") else m
+        out.count(key=("wq", req), kind="write-offgrid", scale=inp["scale"], verdict="ok" if real.startswith("ok ") else real[:40])
+        if tie and real != mt:
+            out.tally("offgrid-day-tie-skipped")      # the exact day fraction is k + 1/2 units: the float sum of the code decides, the model rounds half-even
+            continue
+        if real != mt:
+            out.fail("write-offgrid", "Tle.from_orbit of an off-grid orbit differs from the exact rounding model", inp, observed=real, expected=mt)
+        elif real.startswith("ok "):
+            second.append((inp, real[3:]))
+    # second and third generation: parse -> write again (the model's `rewrite`)
+    k_rewrite(out, [("generation2", t) for _, t in second[: max(50, n // 4)]])
+    # _unfloat alone, on doubles of every magnitude
+    xs = []
+    for _ in range(n):
+        k = rng.random()
+        if k < 0.3:
+            x = rng.choice([-1, 1]) * rng.uniform(0.1, 1) * 10.0 ** rng.randint(-20, 12)
+        elif k < 0.5:
+            m5 = rng.randint(10000, 99999)
+            x = float("%d.5e%d" % (m5, rng.randint(-18, 6))) * rng.choice([1, 1 - 2**-52, 1 + 2**-52])      # around a tie in the fifth digit
+        elif k < 0.7:
+            x = 10.0 ** rng.randint(-16, 10) * rng.choice([1, 1 - 2**-53, 1 + 2**-52, 0.999995, 0.9999949999, 0.9999950001])
+        elif k < 0.8:
+            x = rng.choice([5e-324, 2.2250738585072014e-308, 1.7976931348623157e308, 1e-320, 1e300, 0.03125, 0.5, 2.0**-40, 3.0 * 2.0**-50])
+        else:
+            x = rng.choice([-1, 1]) * (rng.randint(0, 120000) + rng.choice([0, 0.5, 0.25, 0.75])) * 1e-14
+        xs.append(x)
+    reqs = ["tle.unflq " + " ".join(q_tokens(x, True)) for x in xs]
+    for x, m in zip(xs, core.Driver().run(reqs)):
+        real = _unfloat(x)
+        out.count(key=("unflq", x), kind="_unfloat-double")
+        want = unhx(m[3:]) if m.startswith("ok ") else m
+        if real != want:
+            out.fail("_unfloat-double", "_unfloat of a double differs from the exact rounding model", {"x": x, "hex": x.hex()}, observed=real, expected=want)
+    # the epoch alone: every scale, instants around every kind of boundary
+    reqs, want = [], []
+    from datetime import datetime, timedelta
+    from beyond.dates import Date
+    for _ in range(n):
+        y = edge_or(rng, 1957, 2056, [1957, 2056, 1999, 2000, 2001, 1972, 2016, 2017, 2024])
+        span = (datetime(y + 1, 1, 1) - datetime(y, 1, 1)).days * 86400 * 10**6
+        us = rng.choice([0, 1, 431, 433, span - 1, span - 431, span - 433, span - 864, 86400 * 10**6 - 1, 86400 * 10**6 * 59, 86400 * 10**6 * 60 - 1]) if rng.random() < 0.4 else rng.randrange(span)
+        dt = datetime(y, 1, 1) + timedelta(microseconds=us)
+        t = us_since_year1(dt)
+        if t % 864 == 432:
+            continue
+        day = int("{:%j}".format(dt)) + dt.hour / 24.0 + dt.minute / 1440 + dt.second / 86400 + dt.microsecond / 86400000000.0
+        reqs.append(f"tle.epochabs {t}")
+        want.append((t, "ok %d %d" % (int("{:%y}".format(dt)), int("{:012.8f}".format(day).replace(".", "")))))
+    for (t, w), m in zip(want, core.Driver().run(reqs)):
+        out.count(key=("epochabs", t), kind="epoch-of-datetime")
+        if m != w:
+            out.fail("epoch-of-datetime", "year / day-of-year / fraction of a datetime differ from the model (CPython ord2ymd + exact fraction)", {"us_since_0001": t}, observed=w, expected=m)
+
+
 def k_from_string(out, rng, n):
     from beyond.io.tle import Tle
     texts = []
@@ -2024,6 +2176,8 @@ def nonstandard_cases(rng, r):
 
 
 def correspondence(ctx):
+    from harness import env
+    env.use_real_eop()        # TAI-UTC, TT-UTC, GPS-UTC, TDB-UTC differ from zero: the scale label of an orbit's date matters
     out = Outcome()
     rng = ctx.rng
     recs = [gen_rec(rng) for _ in range(ctx.n(400, 6000))]
@@ -2052,4 +2206,5 @@ def correspondence(ctx):
     k_floats(out, rng, ctx.n(1500, 30000))
     k_from_string(out, rng, ctx.n(300, 5000))
     k_history(out, rng, ctx.n(500, 8000))
+    k_offgrid(out, rng, ctx.n(1500, 30000))
     return out
